@@ -110,6 +110,14 @@ impl<'w> Ctx<'w> {
     }
 
     fn term(&mut self, what: &str, u: &Unifiable, text: &str) {
+        // ids already carried by the input (API-built terms, clauses renamed before) are in use:
+        // the counter stands above them, as it does in a running search
+        let mut own = vec![];
+        term_vars(u, &mut own);
+        let top = own.iter().map(|x| x.1).max().unwrap_or(0);
+        if suiron::get_var_id() < top + 5 {
+            suiron::set_var_id(top + 5);
+        }
         let floor = suiron::get_var_id();
         let r1 = match catch_unwind(AssertUnwindSafe(|| u.clone().recreate_variables(&mut suiron::VarMap::new()))) {
             Ok(r) => r,
@@ -135,6 +143,9 @@ impl<'w> Ctx<'w> {
             }
             if strip_term(&r2) != strip_term(u) {
                 self.viol("rename-changes-term", what, format!("second renaming of {} gives {}", text, r2), text.to_string());
+            }
+            if let Some((n, i)) = v2.iter().find(|(_, i)| vs.iter().any(|(_, j)| j == i)) {
+                self.viol("rename-twice-shares", what, format!("two renamings of {} share the variable {}_{}: {} and {}", text, n, i, r1, r2), text.to_string());
             }
         }
         self.w.distinct("outcomes", &(what, vs.len().min(4), matches!(u, Unifiable::SLinkedList { .. })));
@@ -163,6 +174,22 @@ impl<'w> Ctx<'w> {
         goal_vars(&r1.body, &mut vs);
         if let Some(c) = check_ids(&vs, floor) {
             self.viol("rename-ids", what, format!("renaming {}: {}", text, c), text.to_string());
+        }
+        // a clause that has been renamed before is renamed again like any other
+        if !via_kb {
+            let floor2 = suiron::get_var_id();
+            if let Ok(r2) = catch_unwind(AssertUnwindSafe(|| r1.clone().recreate_variables(&mut suiron::VarMap::new()))) {
+                self.w.count("renamings", 1);
+                let mut v2 = vec![];
+                term_vars(&r2.head, &mut v2);
+                goal_vars(&r2.body, &mut v2);
+                if let Some(c) = check_ids(&v2, floor2) {
+                    self.viol("rename-twice-ids", what, format!("renaming the already renamed {}: {}", r1, c), text.to_string());
+                }
+                if strip_term(&r2.head) != strip_term(&r.head) || strip_goal(&r2.body) != strip_goal(&r.body) {
+                    self.viol("rename-changes-rule", what, format!("renaming {} twice gives {}", text, r2), text.to_string());
+                }
+            }
         }
         self.w.distinct("outcomes", &(what, vs.len().min(4), via_kb));
     }
